@@ -180,6 +180,42 @@ func (x *Run) intrinsic(fr *Frame, st *State, fn *ssa.Function, args []Val, site
 			return single(st, Val{T: sel(sel(x.arr(st, x.visitedArr(mt)), args[0].T), args[1].T), S: SBool, Ty: types.Typ[types.Bool]}), true
 		}
 		return single(st, Val{T: "false", S: SBool}), true
+	case "HandlerName":
+		// HandlerName(f): the name of the method a function value is bound to,
+		// looking through wrapper closures that capture exactly one function
+		// (msg.AsyncHandler); "" when the value is not such a method value
+		v := args[0]
+		if v.Inner != nil {
+			v = *v.Inner
+		}
+		res := ""
+		for depth := 0; depth < 4 && v.Clo != nil; depth++ {
+			fn := v.Clo.Fn
+			if strings.HasSuffix(fn.Name(), "$bound") {
+				res = strings.TrimSuffix(fn.Name(), "$bound")
+				break
+			}
+			var next *Val
+			for i := range v.Clo.Bindings {
+				b := v.Clo.Bindings[i]
+				if b.Addr != nil && b.Addr.Kind == ACell {
+					b = x.load(st, b.Addr, nil)
+				}
+				if b.Clo != nil {
+					if next != nil {
+						next = nil
+						break
+					}
+					bb := b
+					next = &bb
+				}
+			}
+			if next == nil {
+				break
+			}
+			v = *next
+		}
+		return single(st, Val{T: x.d.lit(res), S: SStr, Ty: types.Typ[types.String]}), true
 	case "FieldTag", "FieldType":
 		// FieldTag[T](name) / FieldType[T](name): the struct tag / the Go type of
 		// field name of struct type T, read from the type-checked source
@@ -711,6 +747,9 @@ func (x *Run) oblige(st *State, name, kind, goal string, pos token.Pos, note str
 	if (x.pureDepth > 0 || x.inInit) && (kind == "nopanic" || kind == "lock") {
 		return
 	}
+	if x.kindFilter != nil && !x.kindFilter[kind] {
+		return
+	}
 	ob := &Obligation{Name: name, Kind: kind, Unit: x.unit, Pos: x.posStr(pos), Goal: goal, Trace: append([]string(nil), st.trace...), Note: note}
 	if goal == "true" {
 		ob.Static = true
@@ -748,6 +787,9 @@ func (x *Run) oblige(st *State, name, kind, goal string, pos token.Pos, note str
 }
 
 func (x *Run) obligeStatic(st *State, name, kind string, ok bool, pos token.Pos, note string) {
+	if x.kindFilter != nil && !x.kindFilter[kind] {
+		return
+	}
 	ob := &Obligation{Name: name, Kind: kind, Unit: x.unit, Pos: x.posStr(pos), Static: true, StaticOK: ok, Trace: append([]string(nil), st.trace...), Note: note}
 	x.mu.Lock()
 	x.obls = append(x.obls, ob)
